@@ -413,7 +413,7 @@ class Corr:
         path = None
         if st["kind"] != "ins":
             path = self.path_of(st, self.E("plan " + st["sql"]))
-        self.count("%s_%s" % (st["kind"], path) if path else "ins")
+        self.count("%s_%s" % (st["kind"], path) if path else "ins_initial_load" if st.get("initial") else "ins")
         ans = self.E("tsql %s %s" % (t.name, st["sql"]))
         if not (ans == "aborted" or ans.startswith("ok:")):
             raise Diverged("engine answers %s" % ans[:160])
@@ -446,13 +446,13 @@ class Corr:
             if len(new) > 1:
                 self.count("multi_row_writes")
 
-    def end_txn(self, t, how):
+    def end_txn(self, t, how, initial=False):
         a = self.E("%s %s" % (how, t.name))
         if not a.startswith("ok"):
             raise Diverged("engine %s answers %s" % (how, a[:160]))
         if self.Mop("%s %d" % (how, t.id)) != "ok":
             raise Diverged("model %s does not answer ok" % how)
-        self.count(how)
+        self.count(how + ("_initial_load" if initial else ""))
         del self.open[t.name]
 
     # ------------------------------------------------------------ generator
@@ -566,8 +566,11 @@ class Corr:
         pidx = {"index": 0.75}.get(f, 0.5)
         mode = rng.random()
         kinds = ["n" if mode < 0.12 else "s" if mode > 0.88 or rng.random() < pidx else "n" for _ in range(ncol)]
-        if os.environ.get("ENGINECORR_BTREE"):
-            kinds = ["b" if k == "s" else k for k in kinds]
+        if rng.random() < 0.15:
+            # B-tree instead of skip list on the integer columns (its keys are limited in length: not on the varchar)
+            kinds = ["b" if k == "s" and self.types[c] == "i" else k for c, k in enumerate(kinds)]
+            if "b" in kinds:
+                self.count("histories_with_btree_index")
         self.icols = [c for c in range(ncol) if kinds[c] != "n"]
         self.fat = rng.random() < 0.4
         a = self.E("mktable %s %s" % (self.tab, ",".join("%s:%s:%s" % (COLNAMES[c], self.types[c], kinds[c]) for c in range(ncol))))
@@ -583,13 +586,13 @@ class Corr:
             row = [self.rand_val(c) for c in range(ncol)]
             if self.fat and i < nrows - 3:
                 row[2 if ncol > 2 else 1] = rng.choice(LONGS)
-            st = {"kind": "ins", "row": row, "pred": None,
+            st = {"kind": "ins", "row": row, "pred": None, "initial": True,
                   "sql": "INSERT INTO %s(%s) VALUES (%s);" % (self.tab, ",".join(COLNAMES[:ncol]), ", ".join(sqlv(v) for v in row))}
             self.run_stmt(t, st)
             if rng.random() < 0.2 and i < nrows - 1:
-                self.end_txn(t, "commit")
+                self.end_txn(t, "commit", True)
                 t = self.begin()
-        self.end_txn(t, "commit")
+        self.end_txn(t, "commit", True)
         self.compare_all("after the initial load")
         maxopen = 3 if f == "abort" or rng.random() < 0.4 else 2
         p_end = {"abort": 0.10}.get(f, 0.13)
